@@ -3,6 +3,8 @@ package main
 import (
 	"fmt"
 	"go/token"
+	"go/types"
+	"strings"
 
 	"golang.org/x/tools/go/ssa"
 )
@@ -351,6 +353,74 @@ func c14r26(c *Ctx, r *Report) {
 	r.floor("Pause / Resume checked", n, 2)
 }
 
+// c12r16: what --tmux pastes into the popup script from the environment is either a single-quoted value behind a
+// name that matched the identifier pattern, or an exported bash function. bash itself imports a BASH_FUNC_name%%
+// entry only if name is an identifier and the value starts with `() {`; fzf has to be at least as strict, because
+// it pastes name and value into the script as they are (D116: it checked nothing: an entry named
+// `BASH_FUNC_x;touch INJECTED;y%%`, or one whose value was `;touch INJECTED`, was executed by the popup script
+// although bash ignores the same entry).
+func c12r16(c *Ctx, r *Report) {
+	l := c.L
+	r.rule("C12-R16", "B (a pasted function entry has an identifier name and a function value)", "P1",
+		"in runProxy, the append that pastes name+value of a BASH_FUNC_ entry is control dependent on a match of the name against the identifier pattern and on a prefix test of the value",
+		"text of an environment entry is executed as shell syntax by the --tmux re-launch although bash would not import that entry")
+	fn := l.Fn("fzf", "runProxy")
+	if fn == nil {
+		r.unest("anchors", token.NoPos, nil, "anchor runProxy", "cannot resolve")
+		return
+	}
+	cc := cdCache{}
+	n := 0
+	eachInstr(fn, func(in ssa.Instruction) {
+		// name + pair[1]: a string concatenation both of whose operands are not constants, stored into the exports
+		bo, ok := in.(*ssa.BinOp)
+		if !ok || bo.Op != token.ADD {
+			return
+		}
+		if _, isK := bo.X.(*ssa.Const); isK {
+			return
+		}
+		if _, isK := bo.Y.(*ssa.Const); isK {
+			return
+		}
+		if bt, ok := bo.Type().Underlying().(*types.Basic); !ok || bt.Info()&types.IsString == 0 {
+			return
+		}
+		// only the concatenation in the BASH_FUNC_ branch: it is control dependent on HasPrefix(…, "BASH_FUNC_")
+		inBranch, nameOK, valueOK := false, false, false
+		for cond := range cc.of(bo) {
+			for v := range backwardSlice(cond, nil, nil) {
+				call, ok := v.(*ssa.Call)
+				if !ok {
+					continue
+				}
+				switch calleeName(call.Common()) {
+				case "strings.HasPrefix":
+					if s2, ok := constString(call.Call.Args[1]); ok {
+						if s2 == "BASH_FUNC_" {
+							inBranch = true
+						} else if strings.HasPrefix(s2, "()") {
+							valueOK = true
+						}
+					}
+				case "(*regexp.Regexp).MatchString":
+					// the name cut out of the entry, not the whole entry name
+					if _, isSlice := call.Call.Args[1].(*ssa.Slice); isSlice {
+						nameOK = true
+					}
+				}
+			}
+		}
+		if !inBranch {
+			return
+		}
+		n++
+		r.check(nameOK && valueOK, fmt.Sprintf("%s:pasted function entry #%d is validated", relName(fn), n), bo.Pos(), fn,
+			"name matches the identifier pattern, value starts with `() {`", "name and value of a BASH_FUNC_ entry are pasted into the script unchecked")
+	})
+	r.floor("BASH_FUNC_ entries pasted by runProxy", n, 1)
+}
+
 func round12(c *Ctx, r *Report, prop string) {
 	switch prop {
 	case "C07":
@@ -360,6 +430,8 @@ func round12(c *Ctx, r *Report, prop string) {
 		c09r28(c, r)
 	case "C11":
 		c11r28(c, r)
+	case "C12":
+		c12r16(c, r)
 	case "C14":
 		c14r25(c, r)
 		c14r26(c, r)
